@@ -51,15 +51,15 @@ def config_contracts(rep):
     def method(q):
         if q not in fns:
             raise Outside(f"{q} not found")
-        return F.FieldExec(fns[q], KNOWN).run()
+        helpers = {k.split(".", 1)[1]: v for k, v in fns.items() if k.startswith("Config.") and k.count(".") == 1}
+        return F.FieldExec(fns[q], KNOWN, helpers).run()
 
     def check(q, name, fn):
         fq = f"{CFG}::{q}"
         try:
             ok, detail = fn()
         except Outside as o:
-            rep.add_ob(Obligation(f"{fq}::{name}", fq, "ensures", "pyvc", "unknown", detail=str(o)))
-            rep.undecided.append(f"{fq}: {o}")
+            rep.not_covered(fq, ast.get_source_segment(src, fns[q]) if q in fns else "", f"{name}: {o}")
             return
         if not _ob(rep, f"{fq}::{name}", fq, "ensures", "z3", ok, detail):
             fails.append((fq, name, detail))
@@ -99,9 +99,22 @@ def config_contracts(rep):
             raise Outside("Config.__new__ not found")
         txt = ast.unparse(fn)
         ok = "cls._instance is None" in txt and "cls._instance = " in txt and txt.rstrip().endswith("return cls._instance")
-        init = ast.unparse(fns["Config.__init__"]) if "Config.__init__" in fns else ""
-        ok2 = "hasattr(self, '_initialized')" in init and init.lstrip().split("\n")[1].strip().startswith("if not hasattr")
-        return ok and ok2, "singleton __new__ and re-initialisation guard in __init__"
+        ini = fns.get("Config.__init__")
+        if ini is None:
+            raise Outside("Config.__init__ not found")
+        body = [s for s in ini.body if not (isinstance(s, ast.Expr) and isinstance(s.value, ast.Constant))]
+        first = body[0] if body else None
+        # either `if not hasattr(self, '_initialized'): <whole set-up>` (nothing after it) or `if hasattr(self, '_initialized'): return` first
+        guard_a = (isinstance(first, ast.If) and ast.unparse(first.test) == "not hasattr(self, '_initialized')" and len(body) == 1 and not first.orelse)
+        guard_b = (isinstance(first, ast.If) and ast.unparse(first.test) == "hasattr(self, '_initialized')" and len(first.body) == 1
+                   and isinstance(first.body[0], ast.Return) and first.body[0].value is None and not first.orelse)
+        if not (guard_a or guard_b):
+            if "_initialized" in ast.unparse(ini):
+                raise Outside("re-initialisation guard of an unrecognised form")
+            return False, "Config.__init__ has no re-initialisation guard: every Config() call would reseed the generator"
+        if not ok:
+            raise Outside("singleton __new__ of an unrecognised form")
+        return True, "singleton __new__ and re-initialisation guard in __init__"
     check("Config.__new__", "ensures:singleton-and-init-once", c_singleton)
 
     # lemma by induction over the two contracts: the i-th key after set_seed(s) depends on (s, i) only
